@@ -338,6 +338,8 @@ impl MemorySideCache {
     }
 
     pub fn add_smbios_handle(&mut self, handle: u16) {
+        // The number of SMBIOS handles is a 16-bit field.
+        assert!(self.smbios_handles.len() < u16::MAX as usize);
         self.smbios_handles.push(handle);
     }
 }
